@@ -60,6 +60,9 @@ class TS(SyncObj):
             with c.lock:
                 c.applied[self._SyncObj__selfNode.id].append((pos, uid))
                 c.order.append(('a', uid % 1000))
+        if uid % 13 == 6:
+            # a replicated method that raises when it is executed: its caller gets no result (least of all another call's)
+            raise ValueError('application error in call %d' % uid)
         return (uid, pos)
 
 
@@ -299,7 +302,16 @@ def run_case(prop, tier, seed, i):
                     V('failed_but_applied', 'sync call raised fail reason %r but uid %d was applied at %d' % (code, uid, pos_of[uid]), reason=code)
                 elif code not in (1, 2, 3, 4, 5, 6, 'Timeout'):
                     V('unexpected_error_code', 'sync call raised SyncObjException(%r)' % (code,))
-            if rec['kind'] in ('sync', 'sync_to') and rec['exc'] is None:
+            raising = (uid % 13 == 6)
+            if raising:
+                res['obs']['calls_of_raising_method'] += 1
+            if rec['kind'] in ('sync', 'sync_to') and rec['exc'] is None and raising:
+                if rec['ret'] is not None:
+                    V('sync_wrong_result', 'sync call for uid %d, whose method raises when executed, returned %r (another command\'s result?)' % (uid, rec['ret']),
+                      raising=True)
+                else:
+                    res['obs']['sync_results_checked'] += 1
+            elif rec['kind'] in ('sync', 'sync_to') and rec['exc'] is None:
                 ret = rec['ret']
                 if not (isinstance(ret, tuple) and len(ret) == 2 and ret[0] == uid):
                     V('sync_wrong_result', 'sync call for uid %d returned %r (another command\'s result?)' % (uid, ret))
@@ -312,7 +324,12 @@ def run_case(prop, tier, seed, i):
                     V('callback_twice', 'callback of uid %d fired %d times' % (uid, len(rec['cbs'])))
                 elif len(rec['cbs']) == 1:
                     r_, err = rec['cbs'][0]
-                    if err == 0:
+                    if err == 0 and raising:
+                        if r_ is not None:
+                            V('callback_wrong_result', 'callback of uid %d, whose method raises when executed, got %r' % (uid, r_), raising=True)
+                        else:
+                            res['obs']['callback_results_checked'] += 1
+                    elif err == 0:
                         if not (isinstance(r_, tuple) and r_[0] == uid and local.get(uid) == r_[1]):
                             V('callback_wrong_result', 'callback of uid %d got %r, applied locally at %r' % (uid, r_, local.get(uid)))
                         else:
